@@ -204,7 +204,7 @@ impl FormatStringParser<'_> {
         }
     }
 
-    fn parse_format_width(&mut self) -> Option<usize> {
+    fn parse_format_width(&mut self) -> Result<Option<usize>, Box<dyn Error>> {
         let start = self.string;
         let mut digits = 0;
 
@@ -215,11 +215,15 @@ impl FormatStringParser<'_> {
         }
 
         if digits > 0 {
-            // safe to unwrap: we already know all the digits are valid due to
-            // the above checks.
-            Some((start[0..digits]).parse().unwrap())
+            // All the characters are digits, but the number may still be too
+            // large to be a width.
+            let width = &start[0..digits];
+            match width.parse() {
+                Ok(width) => Ok(Some(width)),
+                Err(_) => Err(format!("Invalid field width: {width}").into()),
+            }
         } else {
-            None
+            Ok(None)
         }
     }
 
@@ -255,7 +259,7 @@ impl FormatStringParser<'_> {
             self.advance_one().unwrap();
         }
 
-        let width = self.parse_format_width();
+        let width = self.parse_format_width()?;
 
         let first = self.advance_one()?;
         if first == '%' {
